@@ -1045,7 +1045,7 @@ impl<'a, 'b> Gen<'a, 'b> {
 
     /// statements of this part (never first in a block where a declaration could be meant)
     pub fn stmt_more(&mut self, depth: usize) {
-        if self.t.chance(1, 4) {
+        if self.t.chance(1, 3) {
             self.stmt_more2();
             return;
         }
